@@ -196,9 +196,12 @@ def run_case(case: dict) -> dict:
                 if rank == 0 or eff_rank == 0:
                     continue
                 if op == "shard_invalid":
-                    kind = (b >> 4) % 6
+                    kind = (b >> 4) % 7
                     expect_reject = True
-                    if kind == 0 and rank is not None:
+                    if kind == 6:
+                        # a device index that the configuration does not have (the library's own check rejects it)
+                        kw["device_indices"] = (cfg.num_devices + (b >> 8) % 2,) if (b >> 9) % 2 else (0, -1 - (b >> 8) % 2)
+                    elif kind == 0 and rank is not None:
                         kw["axis"] = rank + (b >> 8) % 2
                     elif kind == 1 and rank is not None:
                         kw["axis"] = -rank - 1
